@@ -247,7 +247,7 @@ def generate(unit, template_path, repo=None, canary=False):
     text = _expand_includes(open(template_path).read(), os.path.join(os.path.dirname(os.path.dirname(os.path.abspath(template_path)))))
     parts, defaults = _split_template(text)
     g = Generated(unit)
-    dflt = {'rewrites': ['R1', 'R2', 'R3', 'R5', 'R13'], 'ghost': None, 'ghostarg': None, 'props': []}
+    dflt = {'rewrites': ['R1', 'R2', 'R3', 'R5', 'R13'], 'ghost': None, 'ghostarg': None, 'props': [], 'loopinv': None, 'bodyprelude': None}
     heapmethods = set()
     for d in defaults:
         if d.kind == 'default':
@@ -491,9 +491,17 @@ def generate(unit, template_path, repo=None, canary=False):
                     spec_text = spec_text.rstrip() + ('\n' if spec_text.strip() else '') + '    ensures ' + flag + '() ==> false,'
             if spec_text.strip():
                 inserts.append((lay['body_open'], '\n' + spec_text.rstrip() + '\n', ('contract', fi.name, 'spec')))
-            if loop_dirs or lowered:
-                loops = _loops(body, lay['body_open'])
-                for k in sorted(set(loop_dirs) | set(lowered)):
+            if dflt.get('bodyprelude') and ghost and lay['body_open'] is not None:
+                # ghost-only: lemma groups enabled at the top of the body (no in-body hints needed for transitivity)
+                inserts.append((lay['body_open'] + 1, ' ' + dflt['bodyprelude'] + ' ', None))
+            auto_inv = dflt.get('loopinv') if ghost else None
+            all_loops = _loops(body, lay['body_open']) if lay['body_open'] is not None else []
+            if loop_dirs or lowered or (auto_inv and all_loops):
+                loops = all_loops
+                ks = set(loop_dirs) | set(lowered)
+                if auto_inv:
+                    ks |= set(range(1, len(loops) + 1))
+                for k in sorted(ks):
                     if k < 1 or k > len(loops):
                         raise AnchorError(f'{fi.name}: loop {k} not found (function has {len(loops)} loops)')
                     kw_b, open_b, in_b = loops[k - 1]
@@ -513,7 +521,12 @@ def generate(unit, template_path, repo=None, canary=False):
                             user_inv, user_dec = user[:m.start()], user[m.start():]
                         else:
                             user_inv, user_dec = user, ''
-                        ltxt = f'        invariant __i{k} <= __v{k}.len(),\n' + user_inv.rstrip() + dec + ('\n' + user_dec if user_dec else '')
+                        ltxt = f'        invariant __i{k} <= __v{k}.len(), ' + (auto_inv or '') + '\n' + user_inv.rstrip() + dec + ('\n' + user_dec if user_dec else '')
+                    elif auto_inv:
+                        if re.search(r'^\s*invariant\b', ltxt, re.M):
+                            ltxt = re.sub(r'^(\s*)invariant\b', r'\1invariant ' + auto_inv, ltxt, count=1, flags=re.M)
+                        else:
+                            ltxt = '        invariant ' + auto_inv + '\n' + ltxt
                     if 'iter' in lkv:
                         if in_b is None:
                             raise AnchorError(f'{fi.name}: loop {k} is not a for loop')
